@@ -106,7 +106,8 @@ var whitelist = []fnSpec{
 	{dir: "cmd/internal/playtak", file: "fpa.go", name: "distance", lean: "distance", group: "FPA"},
 	{dir: "cmd/internal/playtak", file: "fpa.go", name: "dir", lean: "dir", group: "FPA"},
 
-	// group Eval: ai/evaluate.go terminal scores
+	// group Eval: ai/evaluate.go terminal scores, bitboard.Dimensions (used by scoreGroups)
+	{dir: "bitboard", file: "bits.go", name: "Dimensions", lean: "dimensions", group: "Eval", fuel: []string{"70", "70", "70", "70"}},
 	{dir: "ai", file: "evaluate.go", name: "evaluateTerminal", lean: "evaluateTerminal", group: "Eval"},
 	{dir: "ai", file: "evaluate.go", name: "EvaluateWinner", lean: "evaluateWinner", group: "Eval"},
 }
